@@ -1,7 +1,9 @@
 #!/bin/bash
-# usage: dbg.sh <coq-relative file> <line>   : shows the goals just before <line>
+# usage: dbg.sh <coq-relative file> <line> [maxlines] [g]  : shows the goals just before <line>; 'g' = conclusion only
 F="$1"; N="$2"
-D=/var/tmp/scratch/dbg; mkdir -p $D
+D=/var/tmp/scratch/dbg.$$; mkdir -p $D
 head -n $((N-1)) "/verif/coq/$F" > $D/Dbg.v
 echo "Show. Abort." >> $D/Dbg.v
-cd /verif/coq && timeout 120 coqc -Q . LA -o $D/Dbg.vo $D/Dbg.v 2>&1 | grep -v "WARNING conda" | tail -${3:-60}
+cd /verif/coq && timeout 120 coqc -Q . LA -o $D/Dbg.vo $D/Dbg.v 2>&1 | grep -v "WARNING conda" > $D/out.txt
+if [ "$4" = "g" ]; then sed -n '/=====/,$p' $D/out.txt | head -${3:-60}; else head -${3:-60} $D/out.txt; fi
+rm -rf $D
